@@ -135,12 +135,18 @@ def dispatch_trace(m, path, fr, env, outcome, value, exc):
         if any(e[0] == "q_get_empty" for e in seg):
             path.oblige(m.oblname("dispatch/timeout_releases_nothing"), z3.BoolVal(not any(e[0] == "q_put" for e in seg)),
                         kind="trace", assume_after=False)
+            # a dead worker's tile is never reported: every time-out must look at the workers' exit codes
+            chk = [e for e in seg if e[0] == "call" and e[1] == "toasty.par_util.ensure_workers_ok"]
+            ok = len(chk) == 1 and _same(chk[0][2].get("workers"), env.lookup("workers"))
+            path.oblige(m.oblname("dispatch/timeout_checks_that_no_worker_has_failed"), z3.BoolVal(bool(ok)), kind="trace", assume_after=False)
     # shutdown order after the loop
     if outcome == "return" and any(e[0] == "loop_break" and e[1] == 3 for e in ev):
         after = ev[max(i for i, e in enumerate(ev) if e[0] == "loop_break" and e[1] == 3):]
-        seq = [e[0] for e in after if e[0] in ("q_close", "q_join_thread", "ev_set", "loop_summary", "q_put", "proc_join")]
+        from .parallel import _tag
+        seq = [_tag(e) for e in after]
+        seq = [n for n in seq if n in ("q_close", "q_join_thread", "ev_set", "loop_summary", "q_put", "proc_join", "join_workers")]
         path.oblige(m.oblname("dispatch/shutdown_order_close_flush_flag_join"),
-                    z3.BoolVal(seq == ["q_close", "q_join_thread", "ev_set", "loop_summary"]), kind="trace", assume_after=False)
+                    z3.BoolVal(seq == ["q_close", "q_join_thread", "ev_set", "join_workers"]), kind="trace", assume_after=False)
 
 
 @contract("toasty.pyramid.Pyramid._walk_parallel")
@@ -164,9 +170,9 @@ def _(c):
            hints=["pos", "ppos", "child(ppos, 0)", "child(ppos, 1)", "child(ppos, 2)", "child(ppos, 3)",
                   ],
            sk_hints=["child(Pos(n, x, y), 0)", "child(Pos(n, x, y), 1)", "child(Pos(n, x, y), 2)", "child(Pos(n, x, y), 3)"])
-    c.loop(4, summarise="stateless")
+    c.may_raise("WorkerFailedError", "a failed worker makes the walk fail visibly instead of waiting for ever")
     c.on_path(producer_trace("toasty.pyramid._mp_walk_worker",
                              lambda env: (env.lookup("done_queue"), env.lookup("ready_queue"), env.lookup("done_event"),
                                           env.lookup("callback")),
-                             item_of=lambda it: None, loop_workers=2, loop_items=99, loop_join=4))
+                             item_of=lambda it: None, loop_workers=2, loop_items=99, loop_join=98))
     c.on_path(dispatch_trace)
